@@ -427,6 +427,7 @@ func translatePipeline(pkgs map[string]*pkgInfo) string {
 	}
 	b.WriteString(translateClosure(p))
 	b.WriteString(translateState(p))
+	b.WriteString(translateValidators(p))
 	b.WriteString("end Cors.Gen.GoSrc\n")
 	return b.String()
 }
@@ -622,6 +623,196 @@ func translateState(p *pkgInfo) string {
 		}
 		if len(t.bad) > 0 {
 			fmt.Fprintf(&b, "/- UNSUPPORTED in %s: %s -/\n\n", w, strings.ReplaceAll(strings.Join(t.bad, " ;; "), "-/", "- /"))
+		}
+	}
+	return b.String()
+}
+
+// translateValidators: the two loop-free validators of config.go, `validatePreflightStatus` and `validateMaxAge`, as
+// functions from the (unbounded, like Go's 64-bit int on everything the checks below let through) integer argument to
+// (error, value of the field the function assigns).  Supported: tagless `switch` and `if` with integer comparisons,
+// local and package constants (evaluated by go/types), `icfg.<field> = e`, `return nil`, `return &cfgerrors.T{…}` for
+// the two error types, `uint8(e)`, `[]string{…}` of string literals and `strconv.Itoa(e)`.
+func translateValidators(p *pkgInfo) string {
+	var b strings.Builder
+	type spec struct{ name, field, lname, resTy, zero string }
+	for _, sp := range []spec{
+		{"validatePreflightStatus", "preflightStatusMinus200", "validatePreflightStatus", "Nat", "0"},
+		{"validateMaxAge", "acma", "validateMaxAge", "List Bytes", "[]"},
+	} {
+		var fd *ast.FuncDecl
+		if p != nil {
+			for _, f := range p.files {
+				for _, d := range f.Decls {
+					if x, ok := d.(*ast.FuncDecl); ok && x.Name.Name == sp.name && x.Recv != nil && x.Body != nil {
+						fd = x
+					}
+				}
+			}
+		}
+		if fd == nil || len(fd.Type.Params.List) != 1 || len(fd.Type.Params.List[0].Names) != 1 {
+			fmt.Fprintf(&b, "/-- `%s` is missing from the source (or has another signature). -/\ndef %s : Unit := ()\n\n", sp.name, sp.lname)
+			continue
+		}
+		arg := fd.Type.Params.List[0].Names[0].Name
+		t := &tr{p: p}
+		var expr func(e ast.Expr) string
+		konst := func(e ast.Expr) (string, bool) {
+			if tv, ok := p.info.Types[e]; ok && tv.Value != nil && tv.Value.Kind() == constant.Int {
+				v := tv.Value.ExactString()
+				if strings.HasPrefix(v, "-") {
+					return "(" + v + " : Int)", true
+				}
+				return "(" + v + " : Int)", true
+			}
+			return "", false
+		}
+		expr = func(e ast.Expr) string {
+			if k, ok := konst(e); ok {
+				return k
+			}
+			switch e := e.(type) {
+			case *ast.ParenExpr:
+				return "(" + expr(e.X) + ")"
+			case *ast.Ident:
+				if e.Name == arg {
+					return arg
+				}
+			case *ast.UnaryExpr:
+				if e.Op == token.NOT {
+					return "(!" + expr(e.X) + ")"
+				}
+			case *ast.BinaryExpr:
+				switch e.Op {
+				case token.LAND, token.LOR:
+					return "(" + expr(e.X) + " " + e.Op.String() + " " + expr(e.Y) + ")"
+				case token.LSS, token.LEQ, token.GTR, token.GEQ:
+					return "decide (" + expr(e.X) + " " + map[token.Token]string{token.LSS: "<", token.LEQ: "≤", token.GTR: ">", token.GEQ: "≥"}[e.Op] + " " + expr(e.Y) + ")"
+				case token.EQL:
+					return "(" + expr(e.X) + " == " + expr(e.Y) + ")"
+				case token.NEQ:
+					return "(" + expr(e.X) + " != " + expr(e.Y) + ")"
+				case token.SUB, token.ADD:
+					return "(" + expr(e.X) + " " + e.Op.String() + " " + expr(e.Y) + ")"
+				}
+			case *ast.CallExpr:
+				fn := exprText(e.Fun)
+				if fn == "uint8" && len(e.Args) == 1 {
+					return "(GoRt.uint8 " + expr(e.Args[0]) + ")"
+				}
+				if fn == "strconv.Itoa" && len(e.Args) == 1 {
+					return "(GoRt.itoa " + expr(e.Args[0]) + ")"
+				}
+			case *ast.CompositeLit:
+				if exprText(e.Type) == "[]string" {
+					var els []string
+					for _, el := range e.Elts {
+						if tv, ok := p.info.Types[el]; ok && tv.Value != nil && tv.Value.Kind() == constant.String {
+							els = append(els, leanBytes(constant.StringVal(tv.Value)))
+						} else {
+							els = append(els, expr(el))
+						}
+					}
+					return "[" + strings.Join(els, ", ") + "]"
+				}
+			}
+			return t.unsupported(e)
+		}
+		errLit := func(e ast.Expr) string {
+			u, ok := e.(*ast.UnaryExpr)
+			if !ok || u.Op != token.AND {
+				return t.unsupported(e)
+			}
+			cl, ok := u.X.(*ast.CompositeLit)
+			if !ok {
+				return t.unsupported(e)
+			}
+			fields := map[string]string{}
+			for _, el := range cl.Elts {
+				kv, ok := el.(*ast.KeyValueExpr)
+				if !ok {
+					return t.unsupported(e)
+				}
+				fields[exprText(kv.Key)] = expr(kv.Value)
+			}
+			get := func(k string) string {
+				if v, ok := fields[k]; ok {
+					return v
+				}
+				return t.unsupported(cl)
+			}
+			nat := func(s string) string { return "(GoRt.nat " + s + ")" }
+			switch exprText(cl.Type) {
+			case "cfgerrors.PreflightSuccessStatusOutOfBoundsError":
+				if len(fields) == 4 {
+					return "(CfgErr.status " + get("Value") + " " + nat(get("Default")) + " " + nat(get("Min")) + " " + nat(get("Max")) + ")"
+				}
+			case "cfgerrors.MaxAgeOutOfBoundsError":
+				if len(fields) == 4 {
+					return "(CfgErr.maxAge " + get("Value") + " " + nat(get("Default")) + " " + nat(get("Max")) + " " + get("Disable") + ")"
+				}
+			}
+			return t.unsupported(e)
+		}
+		var stmts func(list []ast.Stmt, ind string) string
+		stmts = func(list []ast.Stmt, ind string) string {
+			if len(list) == 0 {
+				t.bad = append(t.bad, "<falls off the end>")
+				return `(GoRt.unsupported "<falls off the end>")`
+			}
+			s, rest := list[0], list[1:]
+			in := ind + "  "
+			switch s := s.(type) {
+			case *ast.DeclStmt:
+				if gd, ok := s.Decl.(*ast.GenDecl); ok && gd.Tok == token.CONST {
+					return stmts(rest, ind)
+				}
+			case *ast.ReturnStmt:
+				if len(s.Results) == 1 {
+					if exprText(s.Results[0]) == "nil" {
+						return "(none, field)"
+					}
+					return "(some " + errLit(s.Results[0]) + ", field)"
+				}
+			case *ast.AssignStmt:
+				if s.Tok == token.ASSIGN && len(s.Lhs) == 1 && len(s.Rhs) == 1 && exprText(s.Lhs[0]) == "icfg."+sp.field {
+					rhs := expr(s.Rhs[0])
+					if sp.resTy == "Nat" && !strings.HasPrefix(rhs, "(GoRt.uint8 ") {
+						rhs = "(GoRt.uint8 " + rhs + ")" // assignment to the uint8 field
+					}
+					return "let field : " + sp.resTy + " := " + rhs + "\n" + ind + stmts(rest, ind)
+				}
+			case *ast.IfStmt:
+				if s.Init == nil && s.Else == nil {
+					return "if " + expr(s.Cond) + " then\n" + in + stmts(append(append([]ast.Stmt{}, s.Body.List...), rest...), in) + "\n" + ind + "else\n" + in + stmts(rest, in)
+				}
+			case *ast.SwitchStmt:
+				if s.Init == nil && s.Tag == nil {
+					out, close := "", ""
+					for i, c := range s.Body.List {
+						cc := c.(*ast.CaseClause)
+						body := stmts(append(append([]ast.Stmt{}, cc.Body...), rest...), in)
+						if cc.List == nil {
+							if i != len(s.Body.List)-1 {
+								return t.unsupported(s)
+							}
+							return out + body + close
+						}
+						if len(cc.List) != 1 {
+							return t.unsupported(s)
+						}
+						out += "if " + expr(cc.List[0]) + " then\n" + in + body + "\n" + ind + "else\n" + in
+					}
+					return out + stmts(rest, in)
+				}
+			}
+			return t.unsupported(s)
+		}
+		body := stmts(fd.Body.List, "  ")
+		fmt.Fprintf(&b, "/-- `(*internalConfig).%s`, translated from: %s -/\n", sp.name, strings.ReplaceAll(codeText(fd.Body), "-/", "- /"))
+		fmt.Fprintf(&b, "def %s (%s : Int) : Option CfgErr × %s :=\n  let field : %s := %s\n  %s\n\n", sp.lname, arg, sp.resTy, sp.resTy, sp.zero, body)
+		if len(t.bad) > 0 {
+			fmt.Fprintf(&b, "/- UNSUPPORTED in %s: %s -/\n\n", sp.name, strings.ReplaceAll(strings.Join(t.bad, " ;; "), "-/", "- /"))
 		}
 	}
 	return b.String()
